@@ -1355,3 +1355,187 @@ def struct_tag_first_rule(syn, prop, rule="C01.R4"):
         r.fail(prop, "struct-tag-shape named", "the tag property is not emitted first as `\"<tag>\": \"<name>\",`", fn["file"], fn["line"])
     r.floor = 1
     return r
+
+
+# ------------------------------------------------------------------ shape tables (C01/C02/C14/C11)
+
+def struct_dispatch_rule(syn, prop, rule="C01.R6"):
+    r = Result(rule, "type_def dispatches on the shape of the fields like serde's data model: named (non-empty or tagged) → object; empty named without tag → empty object; 0 unnamed → empty array; 1 unnamed → the inner type (newtype); n unnamed → tuple; unit → null; and each empty shape uses the narrowest TypeScript type")
+    fn = syn.fn("types::type_def", "types/mod.rs")
+    if fn is None:
+        r.fail(prop, "anchor-missing type_def", "not found")
+        return r
+    calls = [e for e in S.events(fn, "call") if re.match(r"^(unit|named|newtype|tuple)::\w+$", S.squash(e["func"]))]
+    got = {}
+    for e in calls:
+        shape = None
+        n = None
+        guard = None
+        for c in e["ctx"]:
+            if c["k"] != "match":
+                continue
+            pat = S.squash(c["pat"])
+            sc = S.squash(c["scrut"])
+            if sc == "fields":
+                shape = "Named" if pat.startswith("Fields::Named") else "Unnamed" if pat.startswith("Fields::Unnamed") else "Unit" if pat.startswith("Fields::Unit") else pat
+            elif sc.endswith(".len()"):
+                n = pat
+                guard = S.squash(c.get("guard") or "") or None
+        got[(shape, n, guard)] = S.squash(e["func"])
+    want = {("Named", "0", "attr.tag.is_none()"): "unit::empty_object", ("Named", "_", None): "named::named",
+            ("Unnamed", "0", None): "unit::empty_array", ("Unnamed", "1", None): "newtype::newtype", ("Unnamed", "_", None): "tuple::tuple",
+            ("Unit", None, None): "unit::null"}
+    for k, v in want.items():
+        ok = got.get(k) == v
+        r.inst(shape=k[0], count=k[1], guard=k[2], dispatches_to=got.get(k), expected=v, ok=ok)
+        if not ok:
+            r.fail(prop, "struct-dispatch %s/%s" % (k[0], k[1]), "fields shape %s (count %s%s) is formatted by %s, expected %s" % (k[0], k[1], " if " + k[2] if k[2] else "", got.get(k), v), fn["file"], fn["line"])
+    extra = set(got) - set(want)
+    for k in sorted(extra, key=str):
+        r.fail(prop, "struct-dispatch-extra %s/%s" % (k[0], k[1]), "unexpected dispatch arm %s -> %s" % (k, got[k]), fn["file"], fn["line"])
+    # narrowest types for the empty shapes
+    lits = {"empty_object": "Record<string, never>", "empty_array": "never[]", "null": "null"}
+    for name, lit in lits.items():
+        f = syn.fn("types::unit::" + name, "types/unit.rs")
+        found = None
+        for e in (templates(f) if f else []):
+            if any(c["k"] == "field_init" and S.squash(c["field"]) == "inline" for c in e["ctx"]):
+                sl = S.string_lits(e["tokens"])
+                found = S.unquote(sl[0]) if sl else None
+        r.inst(shape=name, literal=found, expected=lit, ok=found == lit)
+        if found != lit:
+            r.fail(prop, "empty-shape-literal %s" % name, "unit::%s declares %r, expected %r" % (name, found, lit), f["file"] if f else None, f["line"] if f else None)
+    ee = syn.fn("types::enum::empty_enum", "types/enum.rs")
+    found = None
+    for e in (templates(ee) if ee else []):
+        if any(c["k"] == "field_init" and S.squash(c["field"]) == "inline" for c in e["ctx"]):
+            sl = S.string_lits(e["tokens"])
+            found = S.unquote(sl[0]) if sl else None
+    r.inst(shape="empty enum", literal=found, expected="never", ok=found == "never")
+    if found != "never":
+        r.fail(prop, "empty-shape-literal empty_enum", "an enum without variants declares %r, expected `never`" % found, ee["file"] if ee else None, ee["line"] if ee else None)
+    # tuple and newtype shapes
+    tf = syn.fn("types::tuple::tuple", "types/tuple.rs")
+    ok = False
+    for e in (templates(tf) if tf else []):
+        fc = S.format_calls(e["tokens"])
+        if fc and S.unquote(fc[0][0]) == "[{}]" and 'join(", ")' in "".join(S.flat(fc[0][1][0])).replace(" ", "").replace('","', '", "'):
+            ok = True
+        elif fc and S.unquote(fc[0][0]) == "[{}]" and ".join(" in "".join(S.flat(fc[0][1][0])):
+            sep = re.search(r'\.join\((".*?")\)', "".join(S.flat(fc[0][1][0])))
+            ok = bool(sep) and S.unquote(sep.group(1)) == ", "
+    r.inst(shape="tuple struct", template='"[{}]" over elements joined by ", "', ok=ok)
+    if not ok:
+        r.fail(prop, "tuple-shape", "tuple structs are not declared as `[a, b, ..]`", tf["file"] if tf else None, tf["line"] if tf else None)
+    r.floor = 11
+    return r
+
+
+def named_composition_rule(syn, prop, rule="C14.R7"):
+    r = Result(rule, "named(): for every (number of own fields, number of flattened fields) cell the declared form is `{ fields }`, the flattened member(s) joined by ` & `, or `{ fields } & flattened`; inline() and inline_flattened() agree on every cell except the lonely flattened member, which inline() un-parenthesises")
+    fn = syn.fn("types::named::named", "named.rs")
+    if fn is None:
+        r.fail(prop, "anchor-missing named", "not found")
+        return r
+    tables = {}
+    for e in S.events(fn, "match"):
+        if S.squash(e["scrut"]) == "(formatted_fields.len(),flattened_fields.len())":
+            which = [S.squash(c["pat"]) for c in e["ctx"] if c["k"] == "let"]
+            if which:
+                tables[which[-1]] = e
+    for nm in ("inline", "inline_flattened"):
+        if nm not in tables:
+            r.fail(prop, "anchor-missing named.%s table" % nm, "no `let %s = match (formatted_fields.len(), flattened_fields.len())`" % nm, fn["file"], fn["line"])
+    if len(tables) < 2:
+        return r
+
+    def classify(body):
+        b = S.squash(body)
+        if b == 'quote!("{}".to_owned())' or 'quote!("{ }".to_owned())' in b.replace("  ", " ") or '"{}"' in b and ".to_owned()" in b and "format!" not in b:
+            return "empty-object"
+        if 'format!("{{{}}}",#fields)' in b:
+            return "object"
+        if 'format!("{{{}}}&{}",#fields,#flattened)' in b:
+            return "object&flattened"
+        if b == "quote!(#flattened)":
+            return "flattened"
+        if "starts_with('(')" in b and "#flattened" in b:
+            return "flattened-unparenthesised"
+        return "?" + b[:40]
+
+    cells = [("0", "0"), ("n", "0"), ("0", "1"), ("0", "m"), ("n", "m")]
+    expect = {("0", "0"): ("empty-object", "empty-object"), ("n", "0"): ("object", "object"), ("0", "1"): ("flattened-unparenthesised", "flattened"),
+              ("0", "m"): ("flattened", "flattened"), ("n", "m"): ("object&flattened", "object&flattened")}
+    for cell in cells:
+        got = []
+        for nm in ("inline", "inline_flattened"):
+            e = tables[nm]
+            sel = None
+            for a in e["arms"]:
+                el = S.tuple_elems(a["pat"])
+                if len(el) != 2:
+                    continue
+                def m(p, v):
+                    p = S.squash(p)
+                    if p == "_":
+                        return True
+                    if p == "0":
+                        return v == "0"
+                    if p == "1":
+                        return v == "1"
+                    return False
+                if m(el[0], cell[0]) and m(el[1], cell[1]):
+                    sel = a
+                    break
+            got.append(classify(sel["body"]) if sel else None)
+        ok = tuple(got) == expect[cell]
+        r.inst(own_fields=cell[0], flattened=cell[1], inline=got[0], inline_flattened=got[1], expected=expect[cell], ok=ok)
+        if not ok:
+            r.fail(prop, "named-composition (%s,%s)" % cell, "for %s own / %s flattened members named() builds inline=%s inline_flattened=%s, expected %s" % (cell[0], cell[1], got[0], got[1], expect[cell]),
+                   fn["file"], fn["line"])
+    # member separators
+    seps = {S.squash(e["pat"]): e["init"] for e in S.events(fn, "let") if S.squash(e["pat"]) in ("fields", "flattened")}
+    ok = '" "' in seps.get("fields", "") and '" & "' in seps.get("flattened", "")
+    r.inst(field_separator_and_flatten_separator=ok)
+    if not ok:
+        r.fail(prop, "named-separators", "own fields must be joined by a space and flattened members by ` & `", fn["file"], fn["line"])
+    r.floor = 6
+    return r
+
+
+def output_path_rule(syn, prop, rule="C11.R4"):
+    r = Result(rule, "the generated output_path(): `<name>.ts` without export_to; with export_to ending in `/` the given directory followed by `<name>.ts`; otherwise the given path verbatim")
+    fn = syn.fn("DerivedTS::into_impl", "macros/src/lib.rs")
+    if fn is None:
+        r.fail(prop, "anchor-missing into_impl", "not found")
+        return r
+    some = none = None
+    for e in templates(fn):
+        for c in e["ctx"]:
+            if c["k"] == "match" and S.squash(c["scrut"]) == "&self.export_to":
+                if S.squash(c["pat"]).startswith("Some"):
+                    some = e
+                elif S.squash(c["pat"]) == "None":
+                    none = e
+    if not some or not none:
+        r.fail(prop, "anchor-missing output_path template", "no `match &self.export_to { Some(..) => quote!.., None => quote!.. }`", fn["file"], fn["line"])
+        return r
+    fcn = S.format_calls(none["tokens"])
+    ok_none = len(fcn) == 1 and S.unquote(fcn[0][0]) == "{}.ts" and ["".join(S.flat(a)) for a in fcn[0][1]] == ["#ts_name"]
+    r.inst(case="no export_to", template=[S.unquote(l) for l, _ in fcn], ok=ok_none)
+    if not ok_none:
+        r.fail(prop, "output-path-default", "without export_to the path must be `<TypeScript name>.ts`", fn["file"], none["line"])
+    txt = " ".join(S.flat(some["tokens"]))
+    fcs = S.format_calls(some["tokens"])
+    lits = [S.unquote(l) for l, _ in fcs]
+    cond = "if dir_or_file . ends_with ( '/' )" in txt
+    dir_form = any(l == "{dir_or_file}{}.ts" and ["".join(S.flat(a)) for a in args] == ["#ts_name"] for (l0, args), l in zip(fcs, lits))
+    file_form = "{dir_or_file}" in lits
+    # order: directory form in the then-branch
+    then_first = txt.find("{dir_or_file}{}.ts") < txt.find('"{dir_or_file}"') if dir_form and file_form else False
+    ok = cond and dir_form and file_form and then_first
+    r.inst(case="export_to", condition_on_trailing_slash=cond, directory_form=dir_form, file_form=file_form, ok=ok)
+    if not ok:
+        r.fail(prop, "output-path-export_to", "export_to must yield `<dir>/<name>.ts` exactly when it ends in `/` and the path verbatim otherwise (templates %s)" % lits, fn["file"], some["line"])
+    r.floor = 2
+    return r
